@@ -539,9 +539,81 @@ def run_victim_other(sh, s, d, case):
     return kind
 
 
+def run_victim_blobwrap(sh, s, d, case):
+    """blob wrapper over MappingStorage: a transaction with a blob aborted after each protocol step leaves the blob
+    directory and the storage unchanged"""
+    import ZODB.MappingStorage
+    import ZODB.blob
+    import zodbpickle.pickle as zp
+    from zv import recfs, clock, objs
+    from zv.observe import observe, first_diff
+    from ZODB.Connection import TransactionMetaData
+    from ZODB.POSException import ConflictError
+    from ZODB.utils import p64, z64
+    rnd = random.Random(s)
+    recfs.install()
+    recfs.LOG.reset()
+    recfs.LOG.enabled = False
+    clock.install(clock.FakeClock())
+    bd = os.path.join(d, 'wblobs')
+    st = ZODB.blob.BlobStorage(bd, ZODB.MappingStorage.MappingStorage())
+    blob_rec = zp.dumps(ZODB.blob.Blob, 3) + zp.dumps(None, 3)
+    boid, ooid = p64(1), p64(2)
+
+    def tmpblob(content):
+        pth = os.path.join(st.temporaryDirectory(), 'vb%d' % rnd.randrange(10 ** 9))
+        with open(pth, 'wb') as f:
+            f.write(content)
+        return pth
+    t = TransactionMetaData(b'', b'setup')
+    st.tpc_begin(t)
+    st.storeBlob(boid, z64, blob_rec, tmpblob(b'committed'), '', t)
+    st.store(ooid, z64, objs.cell_record('o'), '', t)
+    st.tpc_vote(t)
+    tid0 = st.tpc_finish(t)
+    for site in ('after-begin', 'after-storeBlob', 'after-store', 'after-vote', 'stale-second-store'):
+        pre = (observe(st, full=False, undolog=False), blob_listing(bd))
+        t = TransactionMetaData(b'', b'victim')
+        sh.count('fault_sites')
+        try:
+            st.tpc_begin(t)
+            if site != 'after-begin':
+                st.storeBlob(boid, tid0, blob_rec, tmpblob(b'victim bytes'), '', t)
+                if site != 'after-storeBlob':
+                    st.store(ooid, tid0 if site != 'stale-second-store' else p64(5), objs.cell_record('v'), '', t)
+                    if site == 'after-vote':
+                        st.tpc_vote(t)
+        except ConflictError:
+            pass
+        st.tpc_abort(t)
+        sh.count('faults_fired')
+        sh.count('abort_points')
+        sh.count('snapshots_compared')
+        post = (observe(st, full=False, undolog=False), blob_listing(bd))
+        if post[0] != pre[0]:
+            sh.violation('c05:blobwrap:state-changed-by-unfinished-transaction', {'site': site, 'diff': first_diff(post[0], pre[0])}, case)
+        elif post[1] != pre[1]:
+            sh.violation('c05:blobwrap:blob-directory-changed-by-unfinished-transaction',
+                         {'site': site, 'files': sorted(set(post[1]) ^ set(pre[1]))[:3]}, case)
+        elif st._commit_lock.locked():
+            sh.violation('c05:blobwrap:commit-lock-held-after-failed-transaction', {'site': site}, case)
+        sh.case(digest('blobwrap', site), None)
+    t = TransactionMetaData(b'', b'follow-up')
+    st.tpc_begin(t)
+    st.storeBlob(boid, tid0, blob_rec, tmpblob(b'next'), '', t)
+    st.tpc_vote(t)
+    tid1 = st.tpc_finish(t)
+    sh.count('followup_commits')
+    with open(st.loadBlob(boid, tid1), 'rb') as f:
+        if f.read() != b'next':
+            sh.violation('c05:blobwrap:follow-up-blob-wrong', {}, case)
+    return 'blobwrap'
+
+
 def run_shard(params):
     logging.disable(logging.CRITICAL)
     sh = Shard(params)
+    guarded(sh, 'c05', {'seed': params['seed'], 'blobwrap': True}, lambda: run_victim_blobwrap(sh, params['seed'], sh.fresh_dir('bw'), {'seed': params['seed'], 'blobwrap': True}))
     for i in case_indices(params):
         if not sh.time_left():
             break
@@ -561,6 +633,9 @@ def run_shard(params):
 def replay(case, scratch):
     logging.disable(logging.CRITICAL)
     sh = Shard({'scratch': scratch, 'budget_s': 600})
+    if case.get('blobwrap'):
+        guarded(sh, 'c05', case, lambda: run_victim_blobwrap(sh, case['seed'], sh.fresh_dir('bw'), case))
+        return sh.violations
     if case.get('other'):
         guarded(sh, 'c05', case, lambda: run_victim_other(sh, case['seed'], sh.fresh_dir('c05'), case))
     else:
